@@ -140,6 +140,7 @@ struct Case {
   std::vector<double> reqs; // generated history of requested steps
   double fin;               // request repeated until the end is reached
   long save_at;             // save/restore before request #save_at (-1: none)
+  bool every_step;          // read the integer state back after every call
 };
 
 struct Outcome {
@@ -147,7 +148,7 @@ struct Outcome {
   std::string msg;
   std::set<std::string> labels;
   bool nontrivial = false;
-  long steps = 0, stops = 0, fired = 0, ties = 0;
+  long steps = 0, stops = 0, fired = 0, ties = 0, readbacks = 0;
   std::set<int> sizes; // step exponents taken during the generated history
   void fail(const std::string &m) {
     if (ok) {
@@ -157,10 +158,29 @@ struct Outcome {
   }
 };
 
-// bound on the number of calls a sound case can need (generator guarantees
-// max step >= interval / 1024): history + 63 alignment steps + 1024 + slack
+// bound on the number of calls a sound case can need (generators guarantee
+// max step and finishing request >= interval / 256): history + 63 alignment
+// steps + 256 + slack
 const long STEP_CAP = 4000;
 
+// k such that x == T * 2^(k-63) exactly, or -1000 if x is not such a value
+inline int fraction_exponent(double T, double x) {
+  if (!(x > 0.) || !std::isfinite(x))
+    return -1000;
+  int eT, ex;
+  const double mT = std::frexp(T, &eT), mx = std::frexp(x, &ex);
+  if (mT != mx)
+    return -1000;
+  return 63 + ex - eT;
+}
+
+// Reading the integer state costs a file round trip (10..500 us on this file
+// system), so it is done after *every* call only in the cases that ask for it
+// (every_step); otherwise at check points: construction, save point, every
+// call that returns false (stop or end), the last generated request, every
+// 16th call.  Between check points the integer step is taken from the
+// reported physical step, which has to be interval * 2^(k-63) exactly; a
+// hidden drift of the internal time shows at the next check point.
 inline Outcome run_case(const Case &c, Scratch &scr) {
   Outcome o;
   const double T = c.end - c.start; // the interval exactly as the code forms it
@@ -173,6 +193,8 @@ inline Outcome run_case(const Case &c, Scratch &scr) {
   o.labels.insert(zero_start ? "start-0" : "start-general");
   o.labels.insert(c.minstep > 0. ? "min-set" : "min-none");
   o.labels.insert(c.maxstep > 0. ? "max-set" : "max-none");
+  if (c.every_step)
+    o.labels.insert("state-read-back-after-every-call");
 
   const int kmin = c.minstep > 0. ? clampi(exp_le(T, c.minstep), 0, 63) : 0;
   const int kmax =
@@ -193,6 +215,7 @@ inline Outcome run_case(const Case &c, Scratch &scr) {
 
   Raw raw;
   long nb = read_raw(tl, raw, scr);
+  ++o.readbacks;
   if (nb != 40) {
     o.fail(sfmt("restart dump of the time line has %ld bytes; minimum, maximum, "
                 "two conversion factors and the current time need 40",
@@ -226,13 +249,62 @@ inline Outcome run_case(const Case &c, Scratch &scr) {
   if (!o.ok)
     return o;
   const Raw raw0 = raw;
+  const double min_phys = std::ldexp(T, log2u(raw0.min) - 63);
 
-  uint64_t cur = 0;             // integer time according to the read-back
-  unsigned __int128 sum = 0;    // sum of the integer steps taken
-  double prev_ct = c.start;     // physical time after the previous step
+  uint64_t cur = 0;          // integer time (reported steps, checked against
+                             // the read-back at every check point)
+  unsigned __int128 sum = 0; // sum of the integer steps taken
+  double prev_ct = c.start;  // physical time after the previous step
   bool ended = false;
   const long nreq = (long)c.reqs.size();
   bool stop_seen_in_history = false;
+
+  // exact physical position of an integer time (long double: the 64-bit
+  // mantissa holds the integer exactly)
+  auto phys = [&](uint64_t t) -> long double {
+    return (long double)c.start +
+           (long double)T * ((long double)t / 9223372036854775808.0L);
+  };
+  const long double tol_pos =
+      zero_start ? 0.0L : (long double)std::ldexp(big, -51);
+
+  // read the state of the original (and of the restored copy) and compare
+  // with the integer time `expect`
+  auto checkpoint = [&](uint64_t expect, long i, bool any = false) -> bool {
+    nb = read_raw(tl, raw, scr);
+    ++o.readbacks;
+    if (nb != 40) {
+      o.fail(sfmt("restart dump has %ld bytes after request %ld", nb, i));
+      return false;
+    }
+    if (raw.min != raw0.min || raw.max != raw0.max ||
+        std::memcmp(&raw.A, &raw0.A, 8) || std::memcmp(&raw.B, &raw0.B, 8)) {
+      o.fail(sfmt("request %ld changed the configuration of the time line", i));
+      return false;
+    }
+    if (!any && raw.cur != expect) {
+      o.fail(sfmt("after request %ld the time line stands at integer time "
+                  "%llu; the steps it reported add up to %llu",
+                  i, (unsigned long long)raw.cur, (unsigned long long)expect));
+      return false;
+    }
+    if (restored) {
+      Raw rr;
+      const long nb2 = read_raw(*restored, rr, scr);
+      ++o.readbacks;
+      if (nb2 != 40 || !(rr == raw)) {
+        o.fail(sfmt("state of the restored time line after request %ld: "
+                    "current %llu, min %llu, max %llu, factors %a,%a; original "
+                    "%llu, %llu, %llu, %a,%a",
+                    i, (unsigned long long)rr.cur, (unsigned long long)rr.min,
+                    (unsigned long long)rr.max, rr.A, rr.B,
+                    (unsigned long long)raw.cur, (unsigned long long)raw.min,
+                    (unsigned long long)raw.max, raw.A, raw.B));
+        return false;
+      }
+    }
+    return true;
+  };
 
   for (long i = 0; !ended; ++i) {
     if (i >= STEP_CAP) {
@@ -245,18 +317,8 @@ inline Outcome run_case(const Case &c, Scratch &scr) {
     const double q = in_history ? c.reqs[i] : c.fin;
     if (i == c.save_at && restored == nullptr) {
       restored = save_and_restore(tl, scr);
-      Raw rr;
-      nb = read_raw(*restored, rr, scr);
-      if (nb != 40 || !(rr == raw)) {
-        o.fail(sfmt("time line restored from its restart file differs before "
-                    "request %ld: current %llu vs %llu, min %llu vs %llu, max "
-                    "%llu vs %llu, factors %a,%a vs %a,%a",
-                    i, (unsigned long long)rr.cur, (unsigned long long)raw.cur,
-                    (unsigned long long)rr.min, (unsigned long long)raw.min,
-                    (unsigned long long)rr.max, (unsigned long long)raw.max,
-                    rr.A, rr.B, raw.A, raw.B));
+      if (!checkpoint(cur, i - 1))
         return o;
-      }
       o.labels.insert(cur == 0 ? "saved-before-first-step"
                                : (in_history ? "saved-mid-history"
                                              : "saved-before-finishing"));
@@ -265,29 +327,14 @@ inline Outcome run_case(const Case &c, Scratch &scr) {
     double actual = -1., ct = -1.;
     const bool ret = tl.advance(q, actual, ct);
     ++o.steps;
-    nb = read_raw(tl, raw, scr);
-    if (nb != 40) {
-      o.fail(sfmt("restart dump has %ld bytes after request %ld", nb, i));
-      return o;
-    }
-    if (raw.min != raw0.min || raw.max != raw0.max ||
-        std::memcmp(&raw.A, &raw0.A, 8) || std::memcmp(&raw.B, &raw0.B, 8)) {
-      o.fail(sfmt("request %ld changed the configuration of the time line", i));
-      return o;
-    }
-
     if (restored) {
       double a2 = -1., ct2 = -1.;
       const bool ret2 = restored->advance(q, a2, ct2);
-      Raw rr;
-      nb = read_raw(*restored, rr, scr);
       if (ret2 != ret || std::memcmp(&a2, &actual, 8) ||
-          std::memcmp(&ct2, &ct, 8) || nb != 40 || !(rr == raw)) {
+          std::memcmp(&ct2, &ct, 8)) {
         o.fail(sfmt("restored time line diverges at request %ld (%a): returns "
-                    "%d, step %a, time %a, integer time %llu; original %d, %a, "
-                    "%a, %llu",
-                    i, q, (int)ret2, a2, ct2, (unsigned long long)rr.cur,
-                    (int)ret, actual, ct, (unsigned long long)raw.cur));
+                    "%d, step %a, time %a; original %d, %a, %a",
+                    i, q, (int)ret2, a2, ct2, (int)ret, actual, ct));
         return o;
       }
     }
@@ -301,31 +348,44 @@ inline Outcome run_case(const Case &c, Scratch &scr) {
       ++o.ties;
       o.labels.insert("request-exactly-a-power-of-two-fraction");
     }
-    // exact physical position of an integer time (long double: 64-bit
-    // mantissa holds the integer exactly)
-    auto phys = [&](uint64_t t) -> long double {
-      return (long double)c.start +
-             (long double)T * ((long double)t / 9223372036854775808.0L);
-    };
-    const long double tol_pos = [&]() {
-      return zero_start ? 0.0L : (long double)std::ldexp(big, -51);
-    }();
 
-    const bool advanced = raw.cur != cur;
-    if (!advanced) {
-      // ---- the call reported "stop" without advancing
-      if (ret) {
-        o.fail(sfmt("request %ld (%a): advance() returned true but the integer "
-                    "time stayed at %llu",
-                    i, q, (unsigned long long)cur));
+    // ---- what happened: integer time after the call
+    uint64_t newcur = cur;
+    if (ret) {
+      // true is only returned after a step: its size is the reported one
+      const int k = fraction_exponent(T, actual);
+      if (k < 0 || k > 63) {
+        o.fail(sfmt("request %ld (%a): reported step %a is not interval * "
+                    "2^(k-63) with 0 <= k <= 63 (interval %a)",
+                    i, q, actual, T));
         return o;
       }
+      const uint64_t st = 1ull << k;
+      if (st > TOP - cur) {
+        o.fail(sfmt("request %ld (%a): step 2^%d from integer time %llu goes "
+                    "past the end 2^63",
+                    i, q, k, (unsigned long long)cur));
+        return o;
+      }
+      newcur = cur + st;
+      const bool cp = c.every_step || i == nreq - 1 || (i % 16) == 15;
+      if (cp && !checkpoint(newcur, i))
+        return o;
+    } else {
+      // stop or end: ask the time line where it stands
+      if (!checkpoint(0, i, true))
+        return o;
+      newcur = raw.cur;
+    }
+
+    const bool advanced = newcur != cur;
+    if (!advanced) {
+      // ---- the call reported "stop" without advancing
       ++o.stops;
       if (in_history)
         stop_seen_in_history = true;
       // the property allows a stop only for a request below the minimum
       // (integer minimum = configured minimum rounded down to the grid)
-      const double min_phys = std::ldexp(T, log2u(raw0.min) - 63);
       if (q >= min_phys) {
         o.fail(sfmt("request %ld (%a) is not below the minimum step %a (2^%d) "
                     "but the run was stopped at integer time %llu",
@@ -358,17 +418,17 @@ inline Outcome run_case(const Case &c, Scratch &scr) {
     }
 
     // ---- a step was taken
-    if (raw.cur < cur) {
+    if (newcur < cur) {
       o.fail(sfmt("request %ld (%a): integer time went from %llu to %llu", i,
-                  q, (unsigned long long)cur, (unsigned long long)raw.cur));
+                  q, (unsigned long long)cur, (unsigned long long)newcur));
       return o;
     }
-    const uint64_t step = raw.cur - cur;
+    const uint64_t step = newcur - cur;
     const uint64_t left = TOP - cur;
-    if (raw.cur > TOP) {
+    if (newcur > TOP) {
       o.fail(sfmt("request %ld (%a): integer time %llu is past the end 2^63 "
                   "(was %llu, step %llu)",
-                  i, q, (unsigned long long)raw.cur, (unsigned long long)cur,
+                  i, q, (unsigned long long)newcur, (unsigned long long)cur,
                   (unsigned long long)step));
       return o;
     }
@@ -407,10 +467,10 @@ inline Outcome run_case(const Case &c, Scratch &scr) {
                   i, q, actual, c.maxstep));
       return o;
     }
-    if (ret != (raw.cur < TOP)) {
+    if (ret != (newcur < TOP)) {
       o.fail(sfmt("request %ld (%a): advance() returned %d at integer time "
                   "%llu (end = 2^63)",
-                  i, q, (int)ret, (unsigned long long)raw.cur));
+                  i, q, (int)ret, (unsigned long long)newcur));
       return o;
     }
     if (expect_stop) {
@@ -426,15 +486,20 @@ inline Outcome run_case(const Case &c, Scratch &scr) {
                   i, q, (unsigned long long)cur, ks, kexp, kreq, kdiv));
       return o;
     }
+    if (q < c.minstep)
+      o.labels.insert("request-below-configured-minimum-accepted");
     // physical time
-    const long double P = phys(raw.cur);
+    const long double P = phys(newcur);
     if (!(std::fabs((long double)ct - P) <= tol_pos + std::fabs(P) * 0x1p-51L)) {
       o.fail(sfmt("request %ld: reported time %a, integer time %llu is %La", i,
-                  ct, (unsigned long long)raw.cur, P));
+                  ct, (unsigned long long)newcur, P));
       return o;
     }
+    // general start: interval = fl(end - start) (2u*big), conversion and
+    // product (4u*big) and the final sum (u*big) round, u = 2^-53: 7u*big
     if (zero_start ? !(ct <= c.end)
-                   : !((long double)ct <= (long double)c.end + tol_pos)) {
+                   : !((long double)ct <=
+                       (long double)c.end + (long double)std::ldexp(big, -50))) {
       o.fail(sfmt("request %ld: reported time %a exceeds the end time %a", i,
                   ct, c.end));
       return o;
@@ -459,12 +524,11 @@ inline Outcome run_case(const Case &c, Scratch &scr) {
       o.labels.insert("step-below-double-resolution");
     prev_ct = ct;
     sum += step;
-    cur = raw.cur;
+    cur = newcur;
     if (in_history) {
       o.sizes.insert(ks);
-      if (kexp < kreq) {
+      if (kexp < kreq)
         ++o.fired;
-      }
     }
     if (kexp < kreq)
       o.labels.insert("divisibility-reduced-the-step");
@@ -496,6 +560,8 @@ inline Outcome run_case(const Case &c, Scratch &scr) {
     o.labels.insert("history-contains-a-stop");
   if (restored)
     o.labels.insert("with-save-restore");
+  o.labels.insert(o.steps <= 64 ? "calls<=64"
+                                : o.steps <= 256 ? "calls-65..256" : "calls>256");
   o.labels.insert(o.sizes.size() >= 3 ? "3+-step-sizes" : "<3-step-sizes");
   o.nontrivial = o.sizes.size() >= 3 && o.fired >= 1;
   return o;
